@@ -3,7 +3,8 @@
  * Creates the first free "$C15_REPORT_DIR/r<N>" (O_EXCL: the file is the spawn marker and
  * exists before anything else happens), then writes what it received, hex-encoded:
  *   ARGC <n> / ARG <hex> per argv entry (argv[0] first) / EXE <hex of readlink(/proc/self/exe)> / CWD <hex> / ENV <hex> per environ
- *   entry in environ order / STDIN <hex of everything read from fd 0 until EOF> / DONE
+ *   entry in environ order / STDIN <hex of everything read from fd 0 until EOF> (inputs above 8 KiB:
+ *   STDINSUM <length> <crc32 of the whole stream> / STDINHEAD <hex first 32> / STDINTAIL <hex last 32>) / DONE
  * Empty byte strings are written as "-".  Exit status: $C15_EXIT or 0.
  * No shell, no libc locale handling, no interpretation of any byte. */
 #include <errno.h>
@@ -53,19 +54,51 @@ int main(int argc, char **argv) {
     else fputs("CWD !\n", f);
     for (char **e = environ; *e; e++) put_hex(f, "ENV", (unsigned char *)*e, strlen(*e));
     fflush(f);
-    size_t cap = 1 << 16, len = 0;
-    unsigned char *buf = malloc(cap);
-    for (;;) {
-        if (len == cap) {
-            cap *= 2;
-            buf = realloc(buf, cap);
+    /* $C15_MODE selects how stdin is consumed:
+     *   (unset)  read everything until EOF
+     *   slow     read everything in small pieces with pauses (a slow consumer)
+     *   early    read the first 1000 bytes, close stdin, go on
+     *   none     do not touch stdin at all */
+    const char *mode = getenv("C15_MODE");
+    if (mode && strcmp(mode, "none") == 0) {
+        fputs("STDIN skipped\n", f);
+    } else {
+        int slow = mode && strcmp(mode, "slow") == 0;
+        int early = mode && strcmp(mode, "early") == 0;
+        size_t cap = 1 << 16, len = 0, nreads = 0;
+        unsigned char *buf = malloc(cap);
+        for (;;) {
+            if (len == cap) {
+                cap *= 2;
+                buf = realloc(buf, cap);
+            }
+            size_t want = cap - len;
+            if (slow && want > 1531) want = 1531;
+            if (early && want > 1000 - len) want = 1000 - len;
+            if (want == 0) break;
+            ssize_t r = read(0, buf + len, want);
+            if (r < 0 && errno == EINTR) continue;
+            if (r <= 0) break;
+            len += (size_t)r;
+            if (slow && (++nreads % 8) == 0) usleep(300);
         }
-        ssize_t r = read(0, buf + len, cap - len);
-        if (r < 0 && errno == EINTR) continue;
-        if (r <= 0) break;
-        len += (size_t)r;
+        if (early) close(0);
+        if (len <= 8192) {
+            put_hex(f, "STDIN", buf, len);
+        } else {
+            /* large input: length, CRC-32 of the whole stream, first and last 32 bytes */
+            unsigned long crc = 0xFFFFFFFFul;
+            for (size_t i = 0; i < len; i++) {
+                crc ^= buf[i];
+                for (int k = 0; k < 8; k++) crc = (crc >> 1) ^ (0xEDB88320ul & (0ul - (crc & 1ul)));
+            }
+            crc ^= 0xFFFFFFFFul;
+            fprintf(f, "STDINSUM %zu %08lx\n", len, crc & 0xFFFFFFFFul);
+            put_hex(f, "STDINHEAD", buf, 32);
+            put_hex(f, "STDINTAIL", buf + len - 32, 32);
+        }
+        free(buf);
     }
-    put_hex(f, "STDIN", buf, len);
     fputs("DONE\n", f);
     fclose(f);
     const char *code = getenv("C15_EXIT");
